@@ -218,13 +218,15 @@ CHECKS = {
         "rule": "cases = bus writes (address, value) inside random histories (bank registers, I/O, RAM) on MBC1+RAM, MBC3+RAM and ROM-only cores built by the real loader; "
                 "after every write all 65536 addresses are read back and compared with a reference bus (shadow RAMs, I/O register model with defined-bit masks, learnt constants "
                 "for unmapped cells, ROM/RAM windows identified from per-bank index bytes), and the fetch view is compared with the data view over ROM/WRAM/HRAM. "
+                "Emulated time passes between some writes (4..72000 clocks, timer running in two thirds of the units): the registers that move with time (DIV, TIMA, IF, LY, "
+                "STAT mode, OAM after a DMA) are re-learnt, everything else must read back unchanged after the elapse too. "
                 "distinct_nontrivial = distinct (cartridge, written address) pairs",
         "phases": [
             {"variant": "interp-dbg", "monitor": "c10", "shards": 16, "tiers": ("quick",)},
             {"variant": "interp-rel", "monitor": "c10", "shards": 16, "tiers": ("thorough",)},
             asan_phase("c10", variant="interp-asan"),
         ],
-        "floors": {"quick": {"evaluations": 15_000, "bytes-read-back-and-compared": 400_000_000}, "thorough": {"evaluations": 390_000}},
+        "floors": {"quick": {"evaluations": 15_000, "bytes-read-back-and-compared": 400_000_000, "elapses-followed-by-full-read-back": 2_000}, "thorough": {"evaluations": 390_000}},
         "exhaustive": {"quick": False, "thorough": True},
         "assumptions": ["no emulated time passes inside this monitor (reads are pure), so a full read-back is a faithful observation",
                         "thorough: every one of the 65536 addresses is a write target (two values each) on each of the three cartridges; the read-back probe is always the whole address space",
@@ -271,7 +273,8 @@ CHECKS = {
                 "distinct_nontrivial = distinct (TAC, phase chunk) units, TAC transition pairs and histories",
         "phases": [{"variant": "interp-dbg", "monitor": "c13", "shards": 16, "tiers": ("quick",)},
                    {"variant": "interp-rel", "monitor": "c13", "shards": 16, "tiers": ("thorough",)}],
-        "floors": {"quick": {"evaluations": 8_000_000, "overflows-expected": 10_000, "tac-glitch-increments": 1_000}, "thorough": {"evaluations": 200_000_000}},
+        "floors": {"quick": {"evaluations": 8_000_000, "overflows-expected": 10_000, "tac-glitch-increments": 1_000, "single-batches:301-5000-clocks": 20_000, "single-batches:over-5000-clocks": 2_000},
+                   "thorough": {"evaluations": 200_000_000, "single-batches:over-5000-clocks": 2_000}},
         "exhaustive": {"quick": False, "thorough": False},
         "assumptions": ["accept-set: a DIV write while the selected divider bit is high (hardware counts an edge, the statement names only the TAC case): after it only DIV stays compared in that history (counted)"],
     },
